@@ -48,6 +48,13 @@ NONDET = {"time.time", "time.monotonic", "time.perf_counter", "random.random", "
           "datetime.datetime.utcnow", "os.getpid", "id", "hash", "os.getenv", "os.environ.get", "secrets.token_hex"}
 
 
+# calls that change the state of the PROCESS (what later reads and writes run under)
+PROCSTATE = {"sys.setrecursionlimit", "sys.setswitchinterval", "locale.setlocale", "os.chdir", "os.putenv", "os.unsetenv", "os.umask",
+             "random.seed", "warnings.simplefilter", "warnings.filterwarnings", "gc.disable", "gc.enable", "gc.set_threshold",
+             "socket.setdefaulttimeout", "decimal.setcontext", "time.tzset", "sys.setprofile", "sys.settrace",
+             "importlib.reload", "faulthandler.enable", "signal.signal"}
+
+
 def lit(text=None):
     return Piece("lit", None, (), None, text)
 
